@@ -94,6 +94,18 @@ def fam_seg_seg(ctx, rng):
     """closest points between two non-crossing 2D segments / distance_to_line"""
     a = LineSegment2D(P2(G.rpt2(rng, 50)), V2(G.rvec2(rng, 30)))
     b = LineSegment2D(P2(G.rpt2(rng, 50)), V2(G.rvec2(rng, 30)))
+    mode = rng.choice(['general', 'general', 'parallel', 'parallel', 'collinear'])
+    if mode != 'general':
+        # exactly parallel pairs (dyadic data: b.v is an exact multiple of a.v): b nested in a's span, a nested in b's, partly
+        # overlapping, or apart along the direction; given in either argument order; 'collinear' puts them on one line
+        t0 = rng.choice([0.25, 0.375, -0.5, 1.25, 0.0]); k = rng.choice([0.25, 0.5, -0.25, 1.5, 2.0, -2.0])
+        n = (-a.v.y, a.v.x)
+        off = 0.0 if mode == 'collinear' else rng.choice([0.125, -0.25, 0.5])
+        if mode == 'collinear':
+            t0 = rng.choice([1.25, -0.75, 2.0]); k = rng.choice([0.25, 0.5]) * (1 if t0 > 0 else -1)
+        b = LineSegment2D(P2((a.p.x + t0 * a.v.x + off * n[0], a.p.y + t0 * a.v.y + off * n[1])), V2((k * a.v.x, k * a.v.y)))
+        if rng.random() < 0.5:
+            a, b = b, a
     pa, va, pb, vb = X.fpt(a.p), X.fpt(a.v), X.fpt(b.p), X.fpt(b.v)
     if X.segs_intersect(pa, X.add(pa, va), pb, X.add(pb, vb)):
         return
@@ -105,7 +117,7 @@ def fam_seg_seg(ctx, rng):
     sc = max(1.0, max(abs(float(c)) for c in pa + va + pb + vb))
     fam = 'closest.seg_seg2d'
     desc = {'a': repr(a.to_dict()), 'b': repr(b.to_dict())}
-    ctx.count(fam, key=cands.index(best), sample=desc)
+    ctx.count(fam, key=(mode, cands.index(best)), sample=desc)
     if not X.close(d_ab * d_ab, best, 1e-7, 1e-9 * sc * sc):
         ctx.violation(fam + ':not_minimal', 'distance %r but exact minimum %r' % (d_ab, math.sqrt(float(best))), desc)
     if abs(d_ab - d_ba) > 1e-9 * sc:
@@ -253,11 +265,60 @@ def fam_pole(ctx, rng):
             dp, cand, best, prec), desc)
 
 
-def best_interior_point(pts, eps):
+def fam_pole_face(ctx, rng):
+    """Face3D.pole_of_inaccessibility of faces WITH holes (a hole is put over the pole of the outline alone): the pole is a point of
+    the face - not in a hole - and its clearance from ALL loops is within the precision of the best one"""
+    b = G.star_polygon(rng, n=rng.randint(4, 9), R=10.0, center=(0.0, 0.0))
+    fb = [X.fpt(p) for p in b]
+    prec = 0.01
+    p0 = Polygon2D([P2(p) for p in b]).pole_of_inaccessibility(prec)
+    r0 = math.sqrt(float(X.sqdist_to_boundary(fb, X.fpt(p0))))
+    # a hole around the outline's own pole (regular polygon of 3..6 corners, radius a fraction of the clearance) and maybe a second one
+    hs = []
+    k = rng.randint(3, 6); rr = r0 * rng.choice([0.3, 0.5, 0.7]); a0 = rng.uniform(0, 6.28)
+    hs.append([(G.dy(p0.x + rr * math.cos(a0 + 2 * math.pi * i / k)), G.dy(p0.y + rr * math.sin(a0 + 2 * math.pi * i / k))) for i in range(k)])
+    if rng.random() < 0.4:
+        hs += [h for h in G.holes_in(rng, b, 1) if all(X.sqd(X.fpt(q_), X.fpt(p0)) > Fraction(rr * 1.5) ** 2 for q_ in h)]
+    fh = [[X.fpt(q_) for q_ in h] for h in hs]
+    if not all(G.certify_polygon(h) for h in hs) or not all(X.winding_inside(fb, q_) is True for h in fh for q_ in h):
+        return
+    frame = G.rational_frame(rng); o = G.rpt3(rng, 50.0)
+    face = Face3D([P3(G.embed(frame, o, p)) for p in b], holes=[[P3(G.embed(frame, o, q_)) for q_ in h] for h in hs])
+    fam = 'pole.face3d.holes'
+    desc = {'boundary2d': b, 'holes2d': hs, 'frame': frame, 'origin': o}
+    ctx.count(fam, key=(len(b), len(hs), k), sample=desc, nontrivial=True)
+    try:
+        pole3 = face.pole_of_inaccessibility(prec)
+    except Exception as e:
+        ctx.violation(fam + ':raises', '%r' % (e,), desc); return
+    # back to the generator's 2D frame (exact inverse of the embedding up to rounding): project on the frame axes
+    d = [pole3.x - o[0], pole3.y - o[1], pole3.z - o[2]]
+    g = (sum(d[i] * frame[0][i] for i in range(3)), sum(d[i] * frame[1][i] for i in range(3)))
+    off = abs(sum(d[i] * frame[2][i] for i in range(3)))
+    if off > 1e-6:
+        ctx.violation(fam + ':off_plane', 'pole %r is %r off the face plane' % (pole3, off), desc); return
+    gq = X.fpt(g)
+    if X.region_contains(fb, fh, gq) is not True:
+        ctx.violation(fam + ':outside', 'pole %r (2D %r) is not a point of the face (outside the outline or inside a hole)' % (pole3, g), desc); return
+    clear = math.sqrt(float(min([X.sqdist_to_boundary(fb, gq)] + [X.sqdist_to_boundary(h, gq) for h in fh])))
+    cand = best_interior_point(b, 1e-3, hs)
+    cq = X.fpt(cand)
+    best = math.sqrt(float(min([X.sqdist_to_boundary(fb, cq)] + [X.sqdist_to_boundary(h, cq) for h in fh]))) \
+        if X.region_contains(fb, fh, cq) is True else 0.0
+    if clear < best - prec - 1e-9:
+        ctx.violation(fam + ':not_optimal', 'pole clearance %r but the face point %r has clearance %r (precision %r)' % (clear, cand, best, prec), desc)
+
+
+def best_interior_point(pts, eps, holes=()):
     import heapq
-    n = len(pts)
     def sd(x, y):
+        v = sd1(pts, x, y)
+        for h in holes:
+            v = min(v, -sd1(h, x, y))
+        return v
+    def sd1(pts, x, y):
         # signed distance to the polygon: positive inside
+        n = len(pts)
         inside = False; best = float('inf')
         for i in range(n):
             ax, ay = pts[i - 1]; bx, by = pts[i]
@@ -295,7 +356,7 @@ def best_interior_point(pts, eps):
     return best[1]
 
 
-FAMILIES = [(fam_lines, 80), (fam_seg_seg, 30), (fam_arc, 40), (fam_plane, 25), (fam_polygon, 30), (fam_pole, 40)]
+FAMILIES = [(fam_lines, 80), (fam_seg_seg, 60), (fam_arc, 40), (fam_plane, 25), (fam_polygon, 30), (fam_pole, 40), (fam_pole_face, 25)]
 
 
 def explore(ctx):
